@@ -447,6 +447,50 @@ func C14(c Ctx) *report.Report {
 			}
 		}
 	}
+	// (7) administrator-set state of every module: a random subset of the 30 privileged messages (payloads of the C08 matrix)
+	// delivered by a holder of the role, then export -> import -> export and the keepers' readers on both chains
+	for i := 0; i < c.N(10, 150); i++ {
+		w := newC08World()
+		w.prepare()
+		var sent []string
+		for _, m := range c14PrivMethods {
+			if i > 0 && rng.Intn(2) == 0 { // the first world gets all of them (corpus of findings F-21 and F-22)
+				continue
+			}
+			signers := []chain.Account{w.Admin}
+			for _, r := range []string{"ORACLE_ADMIN", "CLP_WHITELIST", "ADMIN", "CLPDEX", "PMTPREWARDS", "TOKENREGISTRY", "ETHBRIDGE", "MARGIN"} {
+				signers = append(signers, w.holder[r])
+			}
+			for _, sg := range signers {
+				if w.Tx(sg, w.build(m, sg)).Code == 0 {
+					sent = append(sent, m)
+					break
+				}
+			}
+		}
+		settle(w.Chain)
+		rd1 := stateReaders(w.Chain)
+		r := roundTrip(w.Chain)
+		replay := map[string]interface{}{"accepted_privileged_messages": sent}
+		reportRT(rep, "admin-state", r, replay)
+		rep.Count("roundtrip.admin-state")
+		n++
+		if r.Chain2 == nil {
+			continue
+		}
+		rd2 := stateReaders(r.Chain2)
+		var keys []string
+		for k := range rd1 {
+			keys = append(keys, k)
+		}
+		sort.Strings(keys)
+		for _, k := range keys {
+			if rd1[k] != rd2[k] {
+				rep.Violate("C14/queries-differ/"+k, "read from the re-imported chain: "+k+" differs",
+					map[string]interface{}{"accepted_privileged_messages": sent, "exporting_chain": trunc(rd1[k], 400), "imported_chain": trunc(rd2[k], 400)})
+			}
+		}
+	}
 	for i := 0; i*40 < len(cases); i++ {
 		end := (i + 1) * 40
 		if end > len(cases) {
@@ -686,4 +730,48 @@ func marginGenCase(id int, e *env.Env, s1 env.MarginState, raw json.RawMessage, 
 	}
 	en.Margin(s2)
 	return en.Coq()
+}
+
+var c14PrivMethods = []string{"admin.AddAccount", "admin.RemoveAccount", "admin.SetParams", "clp.AddProviderDistributionPeriod", "clp.AddRewardPeriod",
+	"clp.DecommissionPool", "clp.ModifyLiquidityProtectionRates", "clp.ModifyPmtpRates", "clp.SetSymmetryThreshold", "clp.UpdateLiquidityProtectionParams",
+	"clp.UpdatePmtpParams", "clp.UpdateRewardsParams", "clp.UpdateStakingRewardParams", "clp.UpdateSwapFeeParams", "ethbridge.RescueCeth", "ethbridge.SetBlacklist",
+	"ethbridge.SetPause", "ethbridge.UpdateCethReceiverAccount", "ethbridge.UpdateWhiteListValidator", "margin.AdminClose", "margin.Dewhitelist", "margin.UpdateParams",
+	"margin.UpdatePools", "margin.UpdateRowanCollateral", "margin.Whitelist", "tokenregistry.Deregister", "tokenregistry.Register"}
+
+// stateReaders: what the keepers' read functions (the ones behind the modules' queries) answer, per item.
+func stateReaders(c *chain.Chain) map[string]string {
+	ctx := c.Ctx()
+	a := c.App
+	out := map[string]string{}
+	reg := a.TokenRegistryKeeper.GetRegistry(ctx)
+	out["registry-entries"] = reg.String()
+	out["admin-accounts"] = fmt.Sprint(a.AdminKeeper.GetAdminAccounts(ctx))
+	out["admin-params"] = fmt.Sprint(a.AdminKeeper.GetParams(ctx))
+	cp := a.ClpKeeper.GetParams(ctx)
+	out["clp-params"] = cp.String()
+	out["clp-symmetry"] = a.ClpKeeper.GetSymmetryThreshold(ctx).String() + " " + a.ClpKeeper.GetSymmetryRatio(ctx).String()
+	out["clp-whitelist"] = fmt.Sprint(a.ClpKeeper.GetClpWhiteList(ctx))
+	sf := a.ClpKeeper.GetSwapFeeParams(ctx)
+	out["clp-swap-fee-params"] = sf.String()
+	out["clp-rewards-params"] = a.ClpKeeper.GetRewardsParams(ctx).String()
+	out["clp-pmtp-params"] = a.ClpKeeper.GetPmtpParams(ctx).String()
+	pr := a.ClpKeeper.GetPmtpRateParams(ctx)
+	out["clp-pmtp-rates"] = pr.String()
+	out["clp-provider-distribution-params"] = a.ClpKeeper.GetProviderDistributionParams(ctx).String()
+	out["clp-liquidity-protection-params"] = a.ClpKeeper.GetLiquidityProtectionParams(ctx).String()
+	lr := a.ClpKeeper.GetLiquidityProtectionRateParams(ctx)
+	out["clp-liquidity-protection-rates"] = lr.String()
+	mp := a.MarginKeeper.GetParams(ctx)
+	out["margin-params"] = mp.String()
+	wl, _, _ := a.MarginKeeper.GetWhitelist(ctx, nil)
+	out["margin-whitelist"] = fmt.Sprint(wl)
+	out["ethbridge-paused"] = fmt.Sprint(a.EthbridgeKeeper.IsPaused(ctx))
+	out["ethbridge-blacklist"] = fmt.Sprint(a.EthbridgeKeeper.GetBlacklist(ctx))
+	out["ethbridge-ceth-receiver"] = a.EthbridgeKeeper.GetCethReceiverAccount(ctx).String()
+	pt := a.EthbridgeKeeper.GetPeggyToken(ctx)
+	out["ethbridge-peggy-tokens"] = pt.String()
+	out["oracle-admin"] = a.OracleKeeper.GetAdminAccount(ctx).String()
+	out["oracle-whitelist"] = fmt.Sprint(a.OracleKeeper.GetOracleWhiteList(ctx))
+	out["mint-params"] = a.MintKeeper.GetParams(ctx).String()
+	return out
 }
